@@ -40,6 +40,11 @@ pub fn name_pools() -> Vec<(Vec<&'static str>, Vec<&'static str>)> {
         (vec!["BREA\u{212A}", "brea\u{212A}", "\u{212A}ey", "item", "\u{2126}hm", "STRA\u{1E9E}E", "\u{212B}ngstrom"], vec!["\u{212A}ind", "brea\u{212A}", "as\u{17F}", "id"]),
         // characters no XML name may contain but the tokenizer lets through
         (vec!["a", "@b", "$text", "b", "text", "@"], vec!["b", "text", "$text"]),
+        // names an implementation might use for itself: a wrapper / sentinel / placeholder element
+        (vec!["root", "item", "Root", "document", "xml", "element", "root1", "_"], vec!["root", "name", "count", "standalone"]),
+        (vec!["item", "root", "children", "attributes", "text", "position"], vec!["id", "root"]),
+        // U+FFFD is an ordinary character of a name (and what a lossy decoder writes for bad bytes)
+        (vec!["a\u{FFFD}", "a", "a\u{FFFD}b", "\u{FFFD}", "a\u{FFFD}\u{FFFD}"], vec!["k\u{FFFD}", "k", "\u{FFFD}"]),
     ]
 }
 
@@ -371,9 +376,29 @@ pub fn run_docprop(ctx: &mut Ctx, p: DocProp) {
         let trim = matches!(ctx.prop.as_str(), "C03" | "C01" | "C06") && case_no % 10 == 7 && kind != "fixed-very-deep";
         let cfg = if trim { RCfg { trim_text: true, ..cfg } } else { cfg };
         let docs: Vec<Vec<Node>> = if trim { docs.into_iter().map(|d| d.into_iter().filter(|n| !matches!(n, Node::Text)).collect()).collect() } else { docs };
+        // another tenth with trim_text_end alone: nothing disappears from the stream, but blank
+        // character data arrives as an empty Text event (except at the very end of the input, where
+        // the reader reports Eof instead: the documents end with their last markup)
+        let trim_end = !trim && case_no % 10 == 3 && kind != "fixed-very-deep";
+        let cfg = if trim_end { RCfg { trim_end: true, ..cfg } } else { cfg };
+        let docs: Vec<Vec<Node>> = if trim_end {
+            docs.into_iter()
+                .map(|mut d| {
+                    while matches!(d.last(), Some(Node::Text)) {
+                        d.pop();
+                    }
+                    d
+                })
+                .collect()
+        } else {
+            docs
+        };
         let bytes = if trim { serialise_no_blank(&docs, &mut rng) } else { serialise(&docs, &mut rng) };
         if trim {
             hist.add("reader:trim_text");
+        }
+        if trim_end {
+            hist.add("reader:trim_text_end-alone");
         }
         let mut opts = (p.opts)(&mut rng);
         if kind == "fixed-very-deep" {
@@ -444,7 +469,7 @@ pub fn run_docprop(ctx: &mut Ctx, p: DocProp) {
     ctx.meta.push(("evaluations", J::N(evaluations)));
     ctx.meta.push(("distinct_nontrivial", J::N(distinct.len() as i64)));
     ctx.meta.push(("rule", json::s(format!(
-        "documents as DOM trees serialised with random incidental detail: {}{} random sequences of 1-{} documents with a common root (23 fixed name pools and, for a third of the cases, a pool of random names incl. keywords, case/separator variants, prefixed, non-ASCII, concatenation traps; depth<=5, fan-out<=6); {}; non-trivial = at least 3 nodes, distinct by DOM sequence",
+        "documents as DOM trees serialised with random incidental detail: {}{} random sequences of 1-{} documents with a common root (26 fixed name pools and, for a third of the cases, a pool of random names incl. keywords, case/separator variants, prefixed, non-ASCII, concatenation traps; depth<=5, fan-out<=6); {}; non-trivial = at least 3 nodes, distinct by DOM sequence",
         exh_note, n_rand, p.max_docs, p.what))));
     ctx.meta.push(("histogram", hist.json()));
     ctx.meta.push(("samples", J::A(samples)));
@@ -518,7 +543,7 @@ pub fn c04(ctx: &mut Ctx) {
     let mut evals = vec![ev("bytes", "ev_bytes", "corr"), ev("wf", "or_wf", "oracle"), ev("reflects", "or_reflects", "oracle"), ev("hyp", "in_hyp_names", "hyp")];
     // renderer-only property: the parser's internal state is not compared here (a harmless rewrite
     // of the parser must not break this check); `bytes` renders the implementation's own tree
-    run_docprop(ctx, DocProp { evals, opts: opts_presets, exhaustive: false, n_rand: (2500, 60000), pools: vec![3, 4, 5, 6, 7, 8, 9, 10, 11, 12, 14, 15, 16, 17, 18, 19, 20, 21], tweak: no_tweak, extra: None, max_docs: 3, with_chars: true, what: "adversarial name pools only; both presets x both sort options" });
+    run_docprop(ctx, DocProp { evals, opts: opts_presets, exhaustive: false, n_rand: (2500, 60000), pools: vec![3, 4, 5, 6, 7, 8, 9, 10, 11, 12, 14, 15, 16, 17, 18, 19, 20, 21, 23, 24], tweak: no_tweak, extra: None, max_docs: 3, with_chars: true, what: "adversarial name pools only; both presets x both sort options" });
 }
 /// implementation-only: one element with `n` distinct children (far beyond what the model can
 /// evaluate per run); the fields and the struct definitions must follow the document (unsorted)
@@ -981,5 +1006,5 @@ pub fn c05(ctx: &mut Ctx) {
         g.max_kids = rng.range(3, 7);
         g.p_empty = 350;
     }
-    run_docprop(ctx, DocProp { evals, opts: opts_presets, exhaustive: false, n_rand: (1500, 30000), pools: vec![0, 3, 3, 4, 5, 5, 6, 7, 9, 10, 11, 12], tweak, extra: Some(c05_extra), max_docs: 4, with_chars: true, what: "collision-prone name pools over-weighted; every case is parsed and rendered again 6-12x in process (fresh HashMap seeds), on 3 fresh threads and (a sample) in 2 fresh processes; all bytes must coincide and equal the model's" });
+    run_docprop(ctx, DocProp { evals, opts: opts_presets, exhaustive: false, n_rand: (1500, 30000), pools: vec![0, 3, 3, 4, 5, 5, 6, 7, 9, 10, 11, 12, 23, 24], tweak, extra: Some(c05_extra), max_docs: 4, with_chars: true, what: "collision-prone name pools over-weighted; every case is parsed and rendered again 6-12x in process (fresh HashMap seeds), on 3 fresh threads and (a sample) in 2 fresh processes; all bytes must coincide and equal the model's" });
 }
